@@ -310,6 +310,56 @@ def rule_boundary(ctx) -> None:
                       "a yield return is reachable without the scheduler event / yielded turn record")
 
 
+def rule_charged(ctx) -> None:
+    """a stage budget can only trigger a yield if the stage's work is charged to the slice: every `consumed[<budget>] = <metric>`
+    feeding a boundary decision runs whenever the stage reported that metric.  The guards between the creation of the consumed
+    table and the charge may look only at what the charged value is made of (is the metric there?) - a charge that also
+    depends on something else (was the result replayed from a cache? which backend?) lets an exhausted budget pass unnoticed,
+    and the quantum test, which comes later in the precedence, reports the yield instead."""
+    import builtins
+    fn = ctx.func(RUN_TURN)
+    cfg = ctx.cfg(fn)
+    rd = ctx.rd(fn)
+    sites = find_calls(ctx, fn, lambda c, nm: call_tail(c) == "_should_yield")
+    n_ch = 0
+    for n, c in sites:
+        if len(c.args) < 2 or not isinstance(c.args[1], ast.Name):
+            continue
+        tab = c.args[1].id
+        creates = [d for d in rd.reaching(tab, n) if d.kind == "assign" and isinstance(d.value, ast.Dict)]
+        if not creates:
+            continue
+        base = set()
+        for d in creates:
+            base |= {id(t) for t, _, _ in cfg.guards(d.node)}
+        for m in cfg.nodes:
+            if m.kind != "stmt" or not isinstance(m.ast, ast.Assign):
+                continue
+            for t in m.ast.targets:
+                if not (isinstance(t, ast.Subscript) and isinstance(t.value, ast.Name) and t.value.id == tab and const_str(t.slice)):
+                    continue
+                if not any(cfg.dominates(d.node, m) for d in creates) or n not in cfg.reach([m]):
+                    continue
+                # the charge belongs to this site if no other creation of the table lies between
+                if any(d.node is not creates[0].node and d.name == tab and d.kind == "assign" and isinstance(d.value, ast.Dict) and d.node in cfg.reach([m]) and n in cfg.reach([d.node]) for d in rd.all_defs):
+                    continue
+                n_ch += 1
+                sl = rd.slice([m.ast.value], m)
+                made_of = sl.names() | sl.free | sl.params
+                extra = []
+                for test, pol, b in cfg.guards(m):
+                    if id(test) in base:
+                        continue
+                    for y in ast.walk(test):
+                        if isinstance(y, ast.Name) and y.id not in made_of and not hasattr(builtins, y.id):
+                            extra.append((y.id, test))
+                budget = const_str(t.slice)
+                ctx.check(not extra, "C17.BOUNDARY", ctx.okey(f"{fn.qual}/work-charged:{budget}"), fn.loc(m.ast), f"consumed[{budget!r}] is charged whenever the stage reported the metric",
+                          (f"consumed[{budget!r}] is charged only under `{src(extra[0][1])[:70]}`, which also depends on `{extra[0][0]}` - not on the metric: when that condition fails the slice "
+                           f"is not charged, `consumed == budget` cannot hold and BUDGET_{budget.upper()} is never the reason (a later, lower-precedence reason is reported or the turn runs on)") if extra else "")
+    ctx.floor("C17.BOUNDARY", "stage-work charges feeding a boundary decision", n_ch, 4)
+
+
 def _flows_into_min(fn: Func, rd, key: str) -> Tuple[bool, str]:
     """Some definition whose value mentions the constant `key` (the slice cap) reaches a min()/slice bound."""
     names: Set[str] = set()
@@ -440,4 +490,5 @@ def run(ctx) -> None:
     rule_elig(ctx)
     rule_prec(ctx)
     rule_boundary(ctx)
+    rule_charged(ctx)
     rule_clamp(ctx)
